@@ -49,8 +49,10 @@ PickMeta(m0, m1) == IF m0.valid /\ m1.valid THEN (IF m1.txid > m0.txid THEN 1 EL
                     ELSE IF m0.valid THEN 0 ELSE IF m1.valid THEN 1 ELSE -1
 
 (* File growth (db.go:578-613, 1263-1271): the real arithmetic of C18. *)
-RECURSIVE Pow2Up(_, _)
-Pow2Up(size, i) == IF i > 30 THEN -1 ELSE IF size <= 2^i THEN 2^i ELSE Pow2Up(size, i + 1)
+\* the smallest power of two 2^j >= size with i <= j <= 30 (-1 if none); written without recursion so that the
+\* proof system can load the module
+Pow2Up(size, i) == LET c == {j \in i..30 : size <= 2^j} IN
+                   IF c = {} THEN -1 ELSE 2^(CHOOSE j \in c : \A k \in c : j <= k)
 GiB == 1073741824
 MmapSize(size) == IF size <= GiB THEN Pow2Up(size, 15)
                   ELSE ((size + GiB - 1) \div GiB) * GiB
